@@ -579,13 +579,28 @@ pub(crate) fn break_recursive_bounds(
 
     bounds
         .into_iter()
-        .filter_map(peel_references)
-        .flat_map(|predicate| match &predicate {
+        .filter_map(|predicate| {
+            // (Before the reference is moved off the bound.)
+            let mut ty = match &predicate {
+                syn::WherePredicate::Type(p) => Some(&p.bounded_ty),
+                _ => None,
+            };
+            while let Some(
+                syn::Type::Paren(syn::TypeParen { elem, .. })
+                | syn::Type::Group(syn::TypeGroup { elem, .. }),
+            ) = ty
+            {
+                ty = Some(&**elem);
+            }
+            let is_reference = matches!(ty, Some(syn::Type::Reference(_)));
+            peel_references(predicate).map(|predicate| (predicate, is_reference))
+        })
+        .flat_map(|(predicate, is_reference)| match &predicate {
             syn::WherePredicate::Type(p)
                 if p.lifetimes.is_none()
                     && p.bounds.len() == 1
                     && p.bounds[0] == inferred
-                    && holds(&p.bounded_ty, ident, false) =>
+                    && holds(&p.bounded_ty, ident, is_reference) =>
             {
                 let self_ident = format_ident!("Self");
                 type_params
